@@ -2,16 +2,24 @@
 (* Exhaustive / export model for C09: choose a sample set (n samples of D     *)
 (* coordinates, integer weights with ties and zeros), summarise it the way    *)
 (* store_nestle_output / store_nest_solutions + generate_solution do, check   *)
-(* the property's clauses in every state.                                     *)
+(* the property's clauses in every state.  The weights handed over by the     *)
+(* sampler are the integers W rescaled to an arbitrary positive total tot     *)
+(* (normalised, a fraction of one, more than one, raw).                       *)
 EXTENDS Posterior
 CONSTANTS N,        \* at most N samples
           NMin,     \* at least NMin samples
           D,        \* fitted dimensions
           Vals,     \* coordinate values
-          Wts,      \* weights
+          Wts,      \* weights (relative, integers)
+          Totals,   \* totals of the weight vector the sampler hands over: rationals <<n, d>>, <<0, 1>> = raw
           Export
-VARIABLES phase, S, W, out
-vars == <<phase, S, W, out>>
+VARIABLES phase, S, W, tot, out
+vars == <<phase, S, W, tot, out>>
+\* cfg files cannot hold tuples:  Totals <- MCTotals..
+MCTotals1 == {<<1, 1>>}
+MCTotals3 == {<<1, 1>>, <<37, 100>>, <<0, 1>>}
+MCTotals4 == {<<1, 1>>, <<37, 100>>, <<0, 1>>, <<5, 2>>}
+HW == Handed(W, tot)                       \* the sampler's weight vector (rationals)
 
 Col(s, d) == [i \in 1..Len(s) |-> s[i][d]]
 \* derived parameter of a sample: any function of the sample evaluated sample by sample, in sample order
@@ -20,15 +28,16 @@ Derive(smp) == 2 * smp[1] + (IF D > 1 THEN smp[D] ELSE 1)
 Init == /\ phase = "in" /\ out = <<>>
         /\ \E n \in NMin..N : /\ S \in [1..n -> [1..D -> Vals]]
                               /\ W \in {w \in [1..n -> Wts] : TotalW(w) > 0}
+        /\ tot \in Totals
 Summarise ==
     /\ phase = "in"
     /\ phase' = "done"
-    /\ UNCHANGED <<S, W>>
-    /\ out' = [fit       |-> [d \in 1..D |-> Summary(Col(S, d), W)],
-               mapidx    |-> ArgMaxSet(W),
+    /\ UNCHANGED <<S, W, tot>>
+    /\ out' = [fit       |-> [d \in 1..D |-> RSummary(Col(S, d), HW)],
+               mapidx    |-> RArgMaxSet(HW),
                tracedata |-> S,
-               weights   |-> W,
-               derived   |-> Summary([i \in 1..Len(S) |-> Derive(S[i])], W),
+               weights   |-> HW,
+               derived   |-> RSummary([i \in 1..Len(S) |-> Derive(S[i])], HW),
                spectrum_at |-> "map", profiles_at |-> "median"]
 Next == Summarise
 Spec == Init /\ [][Next]_vars
@@ -45,7 +54,7 @@ MapIsASample == Done => /\ out.mapidx # {}
 MeanWithinRange == Done => \A d \in 1..D :
         /\ RLe(Q(SetMinI({S[i][d] : i \in 1..Len(S) })), out.fit[d].mean)
         /\ RLe(out.fit[d].mean, Q(SetMaxI({S[i][d] : i \in 1..Len(S)})))
-TraceUnchanged == Done => /\ out.tracedata = S /\ out.weights = W
+TraceUnchanged == Done => /\ out.tracedata = S /\ out.weights = HW
                           /\ \A d \in 1..D : out.fit[d].trace = Col(S, d)
                           /\ Len(out.derived.trace) = Len(S)
                           /\ \A i \in 1..Len(S) : out.derived.trace[i] = Derive(S[i])
@@ -54,12 +63,24 @@ PointMass == Done => \A d \in 1..D :
         (\A i \in 1..Len(S) : S[i][d] = S[1][d]) => out.fit[d].trip = {<<Q(S[1][d]), Q(S[1][d]), Q(S[1][d])>>}
 \* scaling all weights by a constant changes nothing (normalised or raw weights)
 ScaleFree == Done => \A d \in 1..D : Triples(Col(S, d), [i \in 1..Len(W) |-> 3 * W[i]]) = out.fit[d].trip
+\* the total of the weight vector is immaterial: quantiles, mean, MAP set (fitted and derived) are those of the
+\* relative weights W whatever positive total the sampler's vector has; the handed vector has that total and is
+\* proportional to W
+TotalFree == Done => /\ RTotalW(out.weights) = TotalOf(W, tot)
+                     /\ \A i, j \in 1..Len(W) : RMul(out.weights[i], Q(W[j])) = RMul(out.weights[j], Q(W[i]))
+                     /\ \A d \in 1..D : /\ out.fit[d].trip = Triples(Col(S, d), W)
+                                        /\ out.fit[d].mean = WMean(Col(S, d), W)
+                     /\ out.derived.trip = Triples([i \in 1..Len(S) |-> Derive(S[i])], W)
+                     /\ out.derived.mean = WMean([i \in 1..Len(S) |-> Derive(S[i])], W)
+                     /\ out.mapidx = ArgMaxSet(W)
+\* deliberately false (non-vacuity of the total dimension): the handed weights always sum to one
+WeightsSumToOne == Done => RTotalW(out.weights) = Q(1)
 OrderReductionSound == Done => \A d \in 1..D : TriplesAll(Col(S, d), W) = out.fit[d].trip
 FitsInv == Done => \A t \in AllTrips : Fits(t[1]) /\ Fits(t[2]) /\ Fits(t[3])
 \* deliberately false (non-vacuity): the median is NOT always one of the samples
 MedianIsASample == Done => \A d \in 1..D : \A t \in out.fit[d].trip : \E i \in 1..Len(S) : t[2] = Q(S[i][d])
 
 Emit == (Export /\ Done) =>
-    PrintT(<<"VEC", ToJson([x |-> Col(S, 1), w |-> W, trip |-> out.fit[1].trip, mean |-> out.fit[1].mean,
+    PrintT(<<"VEC", ToJson([x |-> Col(S, 1), w |-> W, tot |-> tot, wr |-> out.weights, trip |-> out.fit[1].trip, mean |-> out.fit[1].mean,
                             mapidx |-> out.mapidx])>>)
 =============================================================================
